@@ -43,6 +43,36 @@ def DEF():
     return Tok('DEF')
 
 
+class Mono(Tok):
+    """abstract float that is a Laurent monomial over labelled input atoms (x * w, x / w, w ...): closed under * and /; any other
+    arithmetic degrades it to a plain token carrying the dependency footprint.  Decides 'is this coordinate multiplied or divided
+    by its weight' exactly, for every value of the atoms."""
+    __slots__ = ('exp',)
+
+    def __init__(self, exp):
+        exp = frozenset((k, e) for k, e in dict(exp).items() if e != 0)
+        Tok.__init__(self, 'DEF', dep=frozenset(k for k, _ in exp))
+        self.exp = exp
+
+    def __repr__(self):
+        return 'Mono(%s)' % ' '.join('%s^%d' % (k, e) for k, e in sorted(self.exp, key=repr))
+
+    def __eq__(self, other):
+        return isinstance(other, Mono) and other.exp == self.exp
+
+    def __ne__(self, other):
+        return not self.__eq__(other)
+
+    def __hash__(self):
+        return hash(self.exp)
+
+    def combine(self, other, sign):
+        d = dict(self.exp)
+        for k, e in other.exp:
+            d[k] = d.get(k, 0) + sign * e
+        return Mono(d)
+
+
 class Ord(Tok):
     """abstract float that is only compared: a position on an abstract line.  Knots sit at integer ranks (equal knots share a rank),
     a parameter strictly between two knots at a half-integer rank.  Code that touches these values only through comparisons is
@@ -300,6 +330,12 @@ class SK(object):
             return Ord(b.rank + a.mag)
         if isinstance(a, Gap) and isinstance(b, Gap) and op in (o.add, o.sub):
             return Gap(op(a.mag, b.mag))
+        if isinstance(a, Mono) and isinstance(b, Mono) and op in (o.mul, o.truediv):
+            return a.combine(b, 1 if op is o.mul else -1)
+        if isinstance(a, Mono) and isinstance(b, (int, float)) and not isinstance(b, bool) and b == 1 and op in (o.mul, o.truediv):
+            return a
+        if isinstance(b, Mono) and isinstance(a, (int, float)) and not isinstance(a, bool) and a == 1 and op in (o.mul, o.truediv):
+            return b if op is o.mul else Mono({}).combine(b, -1)
         if isinstance(a, Tok) or isinstance(b, Tok):
             dep = None
             for x in (a, b):
